@@ -45,8 +45,8 @@ func verifHarness_C13_methodName() {
 	k := verifCatch(func() { r.Add("/x", verifNop, m) })
 	verifAssert(k != "runtime", "registration never dies with a run-time error")
 	if k == "" {
-		// an empty name is dropped; with no name left the default GET applies
-		verifAssert(verifOr(a == b, verifIsMethodName(up)), "an accepted method name is one of the nine supported names")
+		// a blank name is not a method name either: it must be rejected like an unknown one
+		verifAssert(verifIsMethodName(up), "an accepted method name is one of the nine supported names")
 		verifCover("C13 method accepted")
 	} else {
 		verifAssert(verifNot(verifIsMethodName(up)), "a supported method name is not rejected")
